@@ -332,7 +332,11 @@ def block_tok(b):
 # ------------------------------------------------------------------ real ast -> term
 def _name(n):
     if n.startswith("%tmp"):
-        return ("T", int(n[4:]))
+        if n[4:].isdigit():
+            return ("T", int(n[4:]))
+        # a hidden variable that is not drawn from the %tmp<k> stream: keep its identity (the
+        # string) so that shift_tmps can give equal names equal numbers; the tie then reports it
+        return ("T", n)
     if n.startswith("v") and n[1:].isdigit():
         return ("U", int(n[1:]))
     raise Unencodable(f"name {n}")
@@ -429,14 +433,23 @@ def from_ast_simple(s):
     raise Unencodable(f"statement node {type(s).__name__}")
 
 
+NONSTD_BASE = 100000
+
+
 def shift_tmps(blocks):
-    """Rename %tmpN by the offset of the process-global counter (smallest N that occurs)."""
-    ns = []
+    """Rename %tmpN by the offset of the process-global counter (smallest N that occurs).
+    Hidden names that are not of the form %tmp<digits> are numbered NONSTD_BASE + i (i = rank of
+    the name), equal names getting equal numbers: the model never produces such numbers, so the
+    CFG-equality tie fires, and the semantic search still sees exactly the sharing the real CFG has.
+    Returns (blocks, offset, sorted list of non-standard names)."""
+    ns, odd = [], set()
 
     def walk(t):
         if isinstance(t, tuple):
             if len(t) == 2 and t[0] == "T" and isinstance(t[1], int):
                 ns.append(t[1])
+            elif len(t) == 2 and t[0] == "T" and isinstance(t[1], str):
+                odd.add(t[1])
             for x in t:
                 walk(x)
         elif isinstance(t, list):
@@ -445,19 +458,20 @@ def shift_tmps(blocks):
     for b in blocks:
         walk(b["stmts"])
         walk(b["pred"])
-    if not ns:
-        return blocks, 0
-    off = min(ns)
+    off = min(ns) if ns else 0
+    rank = {n: NONSTD_BASE + i for i, n in enumerate(sorted(odd))}
 
     def sh(t):
         if isinstance(t, tuple):
             if len(t) == 2 and t[0] == "T" and isinstance(t[1], int):
                 return ("T", t[1] - off)
+            if len(t) == 2 and t[0] == "T" and isinstance(t[1], str):
+                return ("T", rank[t[1]])
             return tuple(sh(x) for x in t)
         if isinstance(t, list):
             return [sh(x) for x in t]
         return t
-    return [dict(b, stmts=sh(b["stmts"]), pred=sh(b["pred"])) for b in blocks], off
+    return [dict(b, stmts=sh(b["stmts"]), pred=sh(b["pred"])) for b in blocks], off, sorted(odd)
 
 
 def conv_stmts(ns):
